@@ -246,6 +246,20 @@ def relayout_fields(a, kind, seed=0):
     names = list(a.dtype.names or [])
     if kind == 'packed' or not names:
         return a
+    if kind in ('titled', 'longlong'):
+        # 'titled': every field also carries a title (a second key in dtype.fields); 'longlong': 64-bit integer fields declared
+        # with the C type long long (dtype char 'q' instead of 'l' - the same 8-byte integer under another spelling)
+        def ft(n):
+            t = a.dtype[n]
+            base, shape = (t.subdtype if t.subdtype else (t, ()))
+            if kind == 'longlong' and base.kind == 'i' and base.itemsize == 8:
+                base = np.dtype(np.longlong).newbyteorder(base.byteorder)
+            key = ((n.upper() + '_TITLE', n) if kind == 'titled' else n)
+            return (key, base, shape) if shape else (key, base)
+        b = np.zeros(a.shape, dtype=[ft(n) for n in names])
+        for n in names:
+            b[n] = a[n]
+        return b
     if kind == 'aligned':
         b = np.zeros(a.shape, dtype=np.dtype([(n, a.dtype[n]) for n in names], align=True))
     else:
